@@ -232,12 +232,20 @@ def sd5(F, R):
             R.require(ok, fn, "init-first", "%s reaches the card without a successful check_init()" % name, fn.loc(b))
     fn = F.fn(SD + "::check_init")
     acq = [(b, t) for b, t in fn.calls() if call_matches(t, ("SdCardInner::acquire",))]
-    ok = len(acq) == 1 and guarded(fn, acq[0][0], g_call("Option::is_none", True, lambda a: "card_type" in tstr(a[0])))[0]
+    # decided per variant of self.card_type, however the test is spelled (is_none(), match, if let)
+    from .ev import specialise_enum
+    is_ct = lambda q: strip_refs(q)[0] == "place" and last_field(strip_refs(q)) == "card_type"
+    r_none = fn.reach([0], cut_edges=specialise_enum(fn, is_ct, ["None", "Some"], "None"))
+    r_some = fn.reach([0], cut_edges=specialise_enum(fn, is_ct, ["None", "Some"], "Some"))
+    ok = len(acq) == 1 and acq[0][0] in r_none and acq[0][0] not in r_some
+    if ok:
+        # with no card type known there is no way to the end around acquire()
+        around = fn.reach([0], cut_edges=specialise_enum(fn, is_ct, ["None", "Some"], "None"), cut_blocks=[acq[0][0]])
+        ok = not any(b in around for b in fn.return_blocks())
     R.require(ok, fn, "acquire-iff-none", "check_init must call acquire() exactly when card_type is None", fn.loc(0))
     oks = ok_returns(fn)
     for (b, i, v) in oks:
-        ok2, _ = guarded(fn, b, g_call("Option::is_none", False, lambda a: "card_type" in tstr(a[0])))
-        R.require(ok2, fn, "ok-only-if-known", "check_init returns Ok(()) without an initialised card type", fn.loc(b, i))
+        R.require(b not in r_none, fn, "ok-only-if-known", "check_init returns Ok(()) without an initialised card type", fn.loc(b, i))
 
 
 def _sd_events(F):
